@@ -39,6 +39,10 @@ def register(reg: Registry) -> None:
         modifies=["lbl_idx_counter.count", "alloc"],
         canaries=["result.id == old(lbl_idx_counter.count)"], properties=["C05", "C08"])
     register_build_op(reg)
+    import os
+
+    if os.environ.get("PYVC_EXPERIMENTAL"):
+        register_build(reg)  # ExplorerScriptMacro.build: draft, 191/206 obligations discharged; not part of the checks yet
 
 
 def register_build_op(reg: Registry) -> None:
@@ -84,4 +88,73 @@ def register_build_op(reg: Registry) -> None:
         ],
         modifies=["op_idx_counter.count", "dict(smb._mappings_macros)", "smb._next_macro_called_in", "alloc"],
         canaries=[f"{E}.macro_name == self.name"],
+        properties=["C08", "C05", "C03"])
+
+
+def register_build(reg: Registry) -> None:
+    SMM = "explorerscript.source_map"
+    reg.fields({"ExplorerScriptMacro.variables": "list[str]", "ExplorerScriptMacro.blueprints": "list[Sub[SsbOperation]]",
+                "SsbLabelJump._root": "SsbOperation | None", "SsbLabelJump.label": "Sub[SsbLabel] | None", "SsbLabelJump.markers": "list[Any]", "SsbLabel.markers": "list[Any]",
+                "SourceMap._position_marks": "list[SourceMapPositionMark]", "SourceMap._position_marks_macro": "list[tuple[str | None, str, SourceMapPositionMark]]",
+                "SourceMapBuilder._pos_marks_macros": "list[Any]", "SsbNamedId.name": "str"})
+    reg.contract(M + ":ExplorerScriptMacro._create_parameter_mapping", types={"self": "ExplorerScriptMacro", "parameters": "dict[str, Any]"}, returns="dict[str, str]",
+                 ensures=["fresh(result)"], modifies=["alloc"], trusted=False, properties=["C08"], canaries=["not fresh(result)"])
+    reg.contract(M + ":ExplorerScriptMacro._replace_in_param_mapping", types={"self": "ExplorerScriptMacro", "parameter_mapping": "dict[str, str]", "our_parameters": "dict[str, Any]"},
+                 returns="dict[str, str]", ensures=["fresh(result)"], modifies=["alloc"], properties=["C08"], canaries=["not fresh(result)"],
+                 loops={0: dict(invariants=["fresh(new_dict)"])})
+    reg.contract(SMM + ":SourceMapBuilder.add_macro_position_mark", types={"self": "SourceMapBuilder", "if_incl_rel_path": "str | None", "macro_name": "str", "position_mark": "SourceMapPositionMark"},
+                 returns="SourceMapBuilder",
+                 ensures=["result is self", "len(self._pos_marks_macros) == old(len(self._pos_marks_macros)) + 1",
+                          "typed(self._pos_marks_macros[len(self._pos_marks_macros) - 1], 'tuple[Any, str, Any]')[2] is position_mark"],
+                 modifies=["list(self._pos_marks_macros)", "alloc"], properties=["C08"], canaries=["len(self._pos_marks_macros) == old(len(self._pos_marks_macros))"])
+    NL = "count_not_inst(self.blueprints, {n}, SsbLabel)"
+    DEPTH = "count_inst(self.blueprints, {n}, MacroStartSsbLabel) - count_inst(self.blueprints, {n}, MacroEndSsbLabel)"
+    HAS_ENTRY = "(o.offset in self.source_map._mappings_macros or o.offset in self.source_map._mappings)"
+    reg.spec_fn("bp_root", ["o"], "ite(isinstance(o, SsbLabelJump), typed(o, 'SsbLabelJump')._root, o)")
+    reg.contract(
+        M + ":ExplorerScriptMacro.build",
+        types={"self": "ExplorerScriptMacro", "op_idx_counter": "Counter", "lbl_idx_counter": "Counter", "parameters": "dict[str, Any]", "smb": "SourceMapBuilder"},
+        returns="list[Sub[SsbOperation]]",
+        requires=[
+            "op_idx_counter is not lbl_idx_counter",
+            "smb._mappings_macros is not self.source_map._mappings_macros",
+            "smb._pos_marks_macros is not self.source_map._position_marks_macro and smb._pos_marks_macros is not self.source_map._position_marks",
+            "smb._macro_context__stack is not self.blueprints and smb._pos_marks_macros is not self.blueprints and smb._macro_context__stack is not smb._pos_marks_macros",
+            # complete label jumps; every real op of the body has an entry in the macro's own source map
+            "all_int(lambda i: implies(0 <= i and i < len(self.blueprints) and isinstance(self.blueprints[i], SsbLabelJump), not is_none(typed(self.blueprints[i], 'SsbLabelJump')._root) and not is_none(typed(self.blueprints[i], 'SsbLabelJump').label)))",
+            "all_int(lambda i: implies(0 <= i and i < len(self.blueprints) and not isinstance(self.blueprints[i], SsbLabel), bp_root(self.blueprints[i]).offset in self.source_map._mappings_macros or bp_root(self.blueprints[i]).offset in self.source_map._mappings))",
+            # nested expansions inside the body are well bracketed (every prefix opens at least as many as it closes)
+            f"all_int(lambda i: implies(0 <= i and i <= len(self.blueprints), {DEPTH.format(n='i')} >= 0))",
+        ],
+        raises=[("ValueError", "any_int(lambda j: 0 <= j and j < len(self.variables) and self.variables[j] not in parameters)", True)],
+        ensures=[
+            # C03/C08: exactly one op number per real blueprint op
+            f"op_idx_counter.count == old(op_idx_counter.count) + {NL.format(n='len(self.blueprints)')}",
+            # the macro context stack is back where nested expansions leave it
+            f"len(smb._macro_context__stack) == old(len(smb._macro_context__stack)) + {DEPTH.format(n='len(self.blueprints)')}",
+            "fresh(result)", "len(result) == len(self.blueprints) + 2",
+            # expansion = start label (carrying 1 + number of real ops), body, end label as LAST element
+            f"type_is(result[0], MacroStartSsbLabel) and fresh(result[0]) and typed(result[0], 'MacroStartSsbLabel').length_of_macro == {NL.format(n='len(self.blueprints)')} + 1",
+            "type_is(result[len(result) - 1], MacroEndSsbLabel) and fresh(result[len(result) - 1])",
+            # every op built for this expansion has a macro source-map entry
+            "all_int(lambda k: implies(old(op_idx_counter.count) < k and k <= op_idx_counter.count, k in smb._mappings_macros))",
+        ],
+        modifies=["op_idx_counter.count", "lbl_idx_counter.count", "dict(smb._mappings_macros)", "smb._next_macro_called_in", "list(smb._macro_context__stack)", "list(smb._pos_marks_macros)", "*markers", "alloc"],
+        loops={
+            0: dict(invariants=["all_int(lambda j: implies(0 <= j and j < it_i, self.variables[j] in parameters))"]),
+            1: dict(invariants=[
+                f"op_idx_counter.count == old(op_idx_counter.count) + {NL.format(n='it_i')}",
+                f"len(smb._macro_context__stack) == old(len(smb._macro_context__stack)) + 1 + {DEPTH.format(n='it_i')}",
+                "fresh(out_ops) and len(out_ops) == it_i + 1 and type_is(out_ops[0], MacroStartSsbLabel) and fresh(out_ops[0])",
+                f"typed(out_ops[0], 'MacroStartSsbLabel').length_of_macro == {NL.format(n='len(self.blueprints)')} + 1",
+                "fresh(end_label) and type_is(end_label, MacroEndSsbLabel)",
+                "fresh(new_labels)",
+                "unchanged_list(self.blueprints) and unchanged_list(self.variables)",
+                "all_int(lambda k: implies(old(op_idx_counter.count) < k and k <= op_idx_counter.count, k in smb._mappings_macros))",
+                "unchanged_dict(self.source_map._mappings_macros) and unchanged_dict(self.source_map._mappings)",
+            ]),
+            2: dict(invariants=[]),
+            3: dict(invariants=[]),
+        },
+        canaries=[f"typed(result[0], 'MacroStartSsbLabel').length_of_macro == {NL.format(n='len(self.blueprints)')}"],
         properties=["C08", "C05", "C03"])
